@@ -344,7 +344,7 @@ func runC07(ctx *runCtx) {
 		name string
 		f    func(int) (string, string)
 	}{{"json-pool", jsonPoolScenario}, {"json-kept-results", jsonKeptResultsScenario}, {"flate-writer-pool", flateWriterPoolScenario}, {"json-nested-read", jsonNestedReadScenario}, {"stale-writer", func(n int) (string, string) { return staleWriterScenario(n, false) }},
-		{"stale-writer-after-failed-ping", func(n int) (string, string) { return staleWriterScenario(n, true) }}, {"window-pool", windowPoolScenario}} {
+		{"stale-writer-after-failed-ping", func(n int) (string, string) { return staleWriterScenario(n, true) }}, {"window-pool", windowPoolScenario}, {"handshake-isolation", handshakeIsolationScenario}} {
 		sh, w := "", ""
 		func() {
 			defer func() {
